@@ -133,6 +133,8 @@ class Pair:
         self.events = []
         self.alarms = []
         self.host.protocol.events.collection_event_received += lambda d: self.events.append((int(d["ceid"].get()), [(int(v["dvid"]), int(v["value"])) for v in d["values"]]))
+        self.reports = []
+        self.host.protocol.events.collection_event_received += lambda d: self.reports.append((int(d["ceid"].get()), int(d["rptid"].get()), [(int(v["dvid"]), int(v["value"])) for v in d["values"]]))
         self.host.protocol.events.alarm_received += lambda d: self.alarms.append((int(d["alid"].get()), int(d["code"].get())))
 
     def both_communicating(self, seconds=10.0):
@@ -237,6 +239,16 @@ def service_case(rnd, host_active):
         want.append((3, [(10, 124), (20, 77)]))
         if pr.events != want:
             problems.append(f"after a second trigger the host has received {pr.events!r}")
+        # a second report on the same event: the host must see each report with its own variables
+        call(h.subscribe_collection_event, 3, [20], 4711)
+        del pr.reports[:]
+        e.trigger_collection_events([3])
+        time.sleep(0.2)
+        first_rpt = pr.reports[0][1] if pr.reports else None
+        want_reports = [(3, first_rpt, [(10, 124), (20, 77)]), (3, 4711, [(20, 77)])]
+        if pr.reports != want_reports:
+            problems.append(f"an event with two linked reports was triggered once; the host received {pr.reports!r}, expected {want_reports!r}")
+        want += [(3, [(10, 124), (20, 77)]), (3, [(20, 77)])]
         ack = call(h.send_remote_command, "START", [])
         time.sleep(0.1)
         if pr.started != [1] or int(ack.HCACK.get()) != 4:
